@@ -48,7 +48,7 @@ func (h h1) Run(env *Env, cfg any) {
 	}
 	stats := env.Sim.Stats()
 	for i, hr := range st.Runs {
-		h1Oracles(env, c, st, hr, i, stats)
+		h1Oracles(env, c.forRun(i), st, hr, i, stats)
 	}
 }
 
@@ -584,6 +584,9 @@ func h1Verdict(env *Env, c *H1Cfg, hr *h1Run, passN, failN uint64, setupFail, ti
 			got, want, succ, fail, drop, c.IgnoreDropped, c.MaxFailures, c.MaxFailRate, setupFail, teardownFail, hr.CliErr)
 	}
 	env.Hit("h1.verdict_checked")
+	if c.Driver == "f1" && len(hr.GT.Scenario) > 0 && c.Runs > 1 && hr.RunIdx > 0 {
+		env.Hit("h1.verdict_checked_f1_second_execute")
+	}
 	if total == 0 {
 		env.Hit("h1.verdict_zero_iterations")
 	}
